@@ -51,6 +51,7 @@ type script struct {
 	threads [][]call
 	pub     bool // root has a recording publish function (a republisher thread exists)
 	chunk4  bool // 4-byte chunker: the file consists of two leaf blocks under a root node
+	tree    bool // initial content written through a descriptor (DagModifier decides the shape) instead of PutNode of a single inline-data node
 	delta   int  // BoundDelta (quick and thorough)
 	small   bool // two-thread scenario small enough to be explored without a bound in thorough
 }
@@ -137,7 +138,12 @@ func (x *exec) setup() error {
 	if err := mfs.Mkdir(rt, "/d", mfs.MkdirOpts{}); err != nil {
 		return err
 	}
-	if err := mfs.PutNode(rt, "/d/f", dag.NodeWithData(ft.FilePBData(nil, 0))); err != nil {
+	viaFd := x.sc.tree || x.sc.chunk4
+	first := dag.NodeWithData(ft.FilePBData([]byte(initial), uint64(len(initial))))
+	if viaFd {
+		first = dag.NodeWithData(ft.FilePBData(nil, 0))
+	}
+	if err := mfs.PutNode(rt, "/d/f", first); err != nil {
 		return err
 	}
 	dn, err := mfs.Lookup(rt, "/d")
@@ -150,18 +156,26 @@ func (x *exec) setup() error {
 		return err
 	}
 	x.fi = fn.(*mfs.File)
-	fd, err := x.fi.Open(x.ctx, mfs.Flags{Write: true, Sync: !x.sc.pub})
-	if err != nil {
-		return err
+	if viaFd {
+		fd, err := x.fi.Open(x.ctx, mfs.Flags{Write: true, Sync: !x.sc.pub})
+		if err != nil {
+			return err
+		}
+		if _, err := fd.Write([]byte(initial)); err != nil {
+			return err
+		}
+		if err := fd.Close(); err != nil {
+			return err
+		}
 	}
-	if _, err := fd.Write([]byte(initial)); err != nil {
-		return err
+	if !x.sc.pub { // (with a publisher this would wake the republisher during setup)
+		if err := x.fi.SetMode(0o600); err != nil {
+			return err
+		}
 	}
-	if err := fd.Close(); err != nil {
-		return err
-	}
-	if err := x.fi.SetMode(0o600); err != nil {
-		return err
+	if os.Getenv("VERIF_C20_SHAPE") != "" {
+		nd, _ := x.fi.GetNode()
+		fmt.Fprintf(os.Stderr, "shape of /d/f in %s: %T links=%d\n", x.sc.name, nd, len(nd.Links()))
 	}
 	return nil
 }
@@ -655,6 +669,7 @@ func scripts() []*script {
 		{name: "s6-chmod-touch-lookup", threads: [][]call{{cm("chmod", 0o644)}, {ct("touch", 0)}, {c("lookup")}}},
 		// S7: metadata update || data write on the same file (setNodeData builds the new node from a stale one)
 		{name: "s7-setmode-write", small: true, threads: [][]call{{cm("setmode", 0o644)}, {w("write", 0)}}},
+		{name: "s7-setmode-write-tree", small: true, tree: true, threads: [][]call{{cm("setmode", 0o644)}, {w("write", 0)}}},
 		{name: "s7-touch-wflush-chunk4", small: true, chunk4: true, threads: [][]call{{ct("touch", 1)}, {w("wflush", 1)}}},
 		// S8: metadata update of the parent directory || write below it
 		{name: "s8-dchmod-write", small: true, threads: [][]call{{cm("dchmod", 0o755)}, {w("write", 0)}}},
